@@ -176,3 +176,71 @@ def sources(sym, fmt):
         sym.check(got == x, f"{fmt}: context {got!r} is not the example's features {x!r}")
         for a in it['actions']:
             sym.check(it['rewards'](a) == (1 if str(a) == y else 0), f"{fmt}: reward of {a!r} for label {y!r}")
+
+# ---------------------------------------------------------------------------------------------------
+@obligation('C14','labelled_rows', bounds="3 examples: (a) class labels that are tuples (one-hot vectors), type 'c' given or inferred; (b) sparse rows whose numeric label 0 is not stored (dict rows with LabelRows, and sparse ARFF), as classification and as regression; (c) rows already labelled by LabelRows(col,'c') with numeric class labels or LabelRows(col,'m') with label lists, handed over WITHOUT label_col/label_type",
+            functions=FUNCS, params=lambda tier: [dict(v=v) for v in ('tuple_labels','sparse_zero_rows','sparse_zero_arff','prelabelled_c','prelabelled_m')])
+def labelled_rows(sym, v):
+    from coba.pipes import Pipes
+    from coba.pipes.rows import LabelRows
+    if v == 'tuple_labels':
+        OH = [(1,0,0),(0,1,0),(0,0,1)]
+        Y = [sym.choice(f'y{i}', OH) for i in range(3)]; X = [[i, 7] for i in range(3)]
+        tipe = sym.choice('tipe', ['c', None])
+        env = SupervisedSimulation(X, Y, tipe) if tipe else SupervisedSimulation(X, Y)
+        inter = list(env.read())
+        distinct = sorted(set(Y))
+        sym.check(len(inter) == 3, "tuple labels: interaction count")
+        for it,x,y in zip(inter,X,Y):
+            sym.check(list(it['actions']) == distinct, f"tuple labels: action set {it['actions']} is not the distinct labels {distinct}")
+            sym.check(list(it['context']) == x, "tuple labels: context")
+            for a in distinct: sym.check(it['rewards'](a) == (1 if a == y else 0), f"tuple labels: reward of {a} for label {y}")
+        return
+    if v in ('sparse_zero_rows','sparse_zero_arff'):
+        labs = [sym.choice(f'y{i}', [0,1,2]) for i in range(3)]
+        sym.assume(0 in labs)                                         # at least one label is the implicit zero
+        tipe = sym.choice('tipe', ['c','r'])
+        if v == 'sparse_zero_rows':
+            rows = [dict({'p': i+1}, **({'y': l} if l != 0 else {})) for i,l in enumerate(labs)]
+            env = SupervisedSimulation(ListSource(rows), 'y', tipe)
+            X = [{'p': i+1} for i in range(3)]
+        else:
+            lines = ["@relation t","@attribute p numeric","@attribute y numeric","@data"] + ["{"+f"0 {i+1}"+(f",1 {l}" if l != 0 else "")+"}" for i,l in enumerate(labs)]
+            env = SupervisedSimulation(ArffSource(ListSource(lines)), 'y', tipe)
+            X = [{'p': float(i+1)} for i in range(3)]
+        try: inter = [dict(i) for i in env.read()]
+        except Exception as e: sym.fail(f"{v}: reading raised {type(e).__name__}: {e} for labels {labs} (a label that is the implicit zero of a sparse row)")
+        sym.check(len(inter) == 3, f"{v}: interaction count")
+        for it,x,y in zip(inter,X,labs):
+            sym.check(dict(it['context'].items()) == x, f"{v}: context {dict(it['context'].items())} is not the features {x}")
+            if tipe == 'c':
+                sym.check(sorted(it['actions']) == sorted(set(labs)) and len(it['actions']) == len(set(labs)), f"{v}: action set {it['actions']} is not the distinct labels of {labs}")
+                for a in it['actions']: sym.check(it['rewards'](a) == (1 if a == y else 0), f"{v}: reward of {a} for label {y}")
+            else:
+                sym.check(list(it['actions']) == [], f"{v}: regression offers no action list")
+                for a in (0, 1, 2.5): sym.check(it['rewards'](a) == -abs(a-y), f"{v}: reward of {a} for target {y}")
+        return
+    if v == 'prelabelled_c':
+        labs = [sym.choice(f'y{i}', [1,2,3]) for i in range(3)]
+        dense = sym.flag('dense')
+        rows = [[i, l, 7] for i,l in enumerate(labs)] if dense else [{'p': i+1, 'y': l} for i,l in enumerate(labs)]
+        src = Pipes.join(ListSource(rows), LabelRows(1 if dense else 'y', 'c'))
+        env = SupervisedSimulation(src) if sym.flag('positional') else SupervisedSimulation(source=src)
+        inter = [dict(i) for i in env.read()]
+        sym.check(len(inter) == 3, "pre-labelled rows: interaction count")
+        for it,l in zip(inter,labs):
+            sym.check(sorted(it['actions']) == sorted(set(labs)) and len(it['actions']) == len(set(labs)), f"rows labelled as classification ('c') with numeric labels {labs}: action set is {it['actions']}")
+            for a in sorted(set(labs)): sym.check(it['rewards'](a) == (1 if a == l else 0), f"rows labelled as classification: reward of {a} for label {l}")
+        return
+    if v == 'prelabelled_m':
+        Y = [sym.choice(f'y{i}', LABELSETS) for i in range(2)]
+        rows = [[i, y] for i,y in enumerate(Y)]
+        src = Pipes.join(ListSource(rows), LabelRows(1, 'm'))
+        inter = [dict(i) for i in SupervisedSimulation(src).read()]
+        union = sorted(set(itertools.chain(*Y)))
+        sym.check(len(inter) == 2, "pre-labelled multilabel rows: interaction count")
+        for it,y in zip(inter,Y):
+            sym.check(sorted(it['actions']) == union and len(it['actions']) == len(union), f"rows labelled as multi-label ('m'): action set {it['actions']} is not the distinct labels {union}")
+            for p in PROBES:
+                exp = fractions.Fraction(len(set(p)&set(y)), len(set(p)|set(y)))
+                sym.check(abs(it['rewards'](list(p))-float(exp)) < 1e-12, f"rows labelled as multi-label: reward of {p} for labels {y} is not the Jaccard overlap {exp}")
